@@ -253,3 +253,40 @@ func (p *Prog) FileOf(pos token.Pos) *ast.File {
 	}
 	return nil
 }
+
+// InstallHelperArgs builds the "unique call site" table used by IsParam in InlineHelpers mode.
+func (p *Prog) InstallHelperArgs() {
+	sites := map[*ssa.Function][]*ssa.Call{}
+	for _, fn := range p.AllRepoFuncs() {
+		for _, g := range withClosuresRaw(fn) {
+			for _, b := range g.Blocks {
+				for _, ins := range b.Instrs {
+					if call, ok := ins.(*ssa.Call); ok {
+						if h := call.Call.StaticCallee(); h != nil && h.Pkg != nil && h.Parent() == nil {
+							sites[h] = append(sites[h], call)
+						}
+					}
+				}
+			}
+		}
+	}
+	helperArg = func(pv *ssa.Parameter) ssa.Value {
+		h := pv.Parent()
+		if h == nil || h.Parent() != nil {
+			return nil
+		}
+		if n := h.Name(); n == "" || !(n[0] >= 'a' && n[0] <= 'z') {
+			return nil
+		}
+		cs := sites[h]
+		if len(cs) != 1 {
+			return nil
+		}
+		for i, q := range h.Params {
+			if q == pv && i < len(cs[0].Call.Args) {
+				return cs[0].Call.Args[i]
+			}
+		}
+		return nil
+	}
+}
